@@ -1,4 +1,4 @@
-\* C02: two pollers (+ workers), two ids, i1 queued twice, retry-then-ok bodies
+\* C03 fault-free: one poller+workers, recovery tasks on another runner
 SPECIFICATION Spec
 CONSTANTS
   Inv = {"i1", "i2"}
@@ -9,20 +9,20 @@ CONSTANTS
   RerouteOnCC = TRUE
   MaxRetries = 1
   Outcome <- AllOk
-  Submissions <- SubDupQ
-  PollN = 2
-  Pollers = {"r1", "r2"}
-  Recoverers = {}
+  Submissions <- SubMix
+  PollN = 1
+  Pollers = {"r1"}
+  Recoverers = {"r2"}
   Stoppable = {}
   MaxCrashes = 0
   TrackHist = FALSE
   RecoveryAbortsOnLostRace = FALSE
 CONSTRAINT Bounded
 INVARIANT TypeOK
-INVARIANT NoParallelBody
+INVARIANT NoStranded
 INVARIANT SuccessHasResult
+INVARIANT FailedHasException
 INVARIANT ChangeLogIsPath
+INVARIANT StoppedLeavesNothing
 PROPERTY CoreFollowsEdge
 PROPERTY CoreFinalAbsorbing
-PROPERTY ClaimsAlternate
-PROPERTY OnlyOwnerMoves
